@@ -7,8 +7,12 @@ TRUSTED_BASE = [
     "all Rust code is modelled by hand, not verified directly; 64-bit usize assumed",
 ]
 
+HOOK_COMMITS = []
+NOT_APPLICABLE = {}
+
 PROPS = {
     "C13": {
+        "level_text": "Coq theorems over the hand-written 62-op codec model: decode(encode ops)=ops and encode(decode bytes)=bytes for all inputs, injectivity, totality, invalid-opcode and truncated-Push errors at every op boundary; the model's op table is proved equal to the table regenerated from asm.yml on every run and to the pinned table. Tied to the compiled crate by an exhaustive 256-byte table comparison, all op pairs, the short-constant table and random/mutated byte strings evaluated inside Coq.",
         "properties": "Properties/C13",
         "corr": ["Corr/RunAsm"],
         "engines": [{"engine": "asm", "quick": 1500, "thorough": 40000}],
@@ -18,6 +22,7 @@ PROPS = {
         "assumes": ["bytes are u8 (0..255)", "Push immediates are i64"],
     },
     "C15": {
+        "level_text": "Coq theorems: the byte-level scan of the serialisation of any well-formed program equals 'some op has one of the queried effects' for each of the 64 subsets (induction over programs; Push skips exactly 8 bytes), and analyze equals the union of per-op effects; flag values regenerated from the Rust source. Correspondence runs analyze and bytes_contains_any for all 64 subsets on immediates containing every opcode byte at every position.",
         "properties": "Properties/C15",
         "corr": ["Corr/RunAsm"],
         "engines": [{"engine": "fx", "quick": 1500, "thorough": 30000}],
@@ -25,5 +30,91 @@ PROPS = {
                 "effect op), all 64 subsets of effect ops in both orders, random programs biased towards effect bytes inside "
                 "immediates; each case queries all 64 effect subsets; non-trivial when the program is non-empty",
         "assumes": ["effect sets are the 64 subsets of the six documented flags"],
+    },
+
+    "C05": {
+        "level_text": 'Coq theorems by induction over all 62 ops and over exec (fuel induction, Compute children included): from any state satisfying the invariant (stack<=4096, memory<=10240, repeat<=4096, depth<=1, all words i64) every step and every execution preserves the invariant and never reaches a modelled panic/overflow site (unchecked +=, expect, indexing are explicit Panic outcomes in the model). Correspondence in two build profiles (overflow checks off/on) incl. limit sweeps that expose the state after every executed op.',
+        "properties": "Properties/C05",
+        "corr": ["Corr/RunVm"],
+        "engines": [
+            {"engine": "vm", "name": "vm_release", "profile": "release", "quick": 900, "thorough": 25000,
+             "args": ["--families", "single,prog,malformed,control,compute,state,access,crypto", "--evals", "c05_mismatches,c05_spec_failures", "--gas", "--sweep"]},
+            {"engine": "vm", "name": "vm_checked", "profile": "relchk", "quick": 900, "thorough": 25000,
+             "args": ["--families", "single,prog,malformed,control,compute,state,access,crypto", "--evals", "c05_mismatches,c05_spec_failures", "--gas", "--sweep"]},
+        ],
+        "rule": "all VM case families (single data op on boundary operands and stack/memory shapes at the limits, structured and "
+                "malformed programs, control flow, compute, state reads, access, crypto) with cost/limit grids and limit sweeps "
+                "(limit k at cost 1 exposes the machine state after every executed operation); run with overflow checks off and on; "
+                "non-trivial = at least 2 executed ops or a single-op boundary case; distinct by literal",
+        "assumes": ["64-bit usize", "allocation failure is not modelled (see known finding F12 / DESIGN.md section 10)"],
+    },
+    "C07": {
+        "level_text": "Coq theorems: reported gas = spent + sum of costs of the executed-op list (children included), gas <= limit <= u64::MAX, out-of-gas error before the op with the state unchanged, termination with positive costs (Compute-free) and the exact cause of fuel exhaustion otherwise. Correspondence over cost/limit grids with the implementation's own priced-op record.",
+        "properties": "Properties/C07",
+        "corr": ["Corr/RunVm"],
+        "engines": [{"engine": "vm", "quick": 1200, "thorough": 30000,
+                     "args": ["--families", "prog,control,compute,malformed,state", "--evals", "c07_mismatches,c07_spec_failures", "--gas", "--sweep"]}],
+        "rule": "programs with backward jumps, repeats and Compute under cost functions const 0/1/2^62/u64::MAX/per-opcode tables and "
+                "limits 0,1,small,u64::MAX and +-3 around the default; the cost closure records every op it prices (the implementation's own "
+                "executed-op list); non-trivial = at least 2 executed ops",
+        "assumes": ["the caller-supplied cost function is deterministic"],
+    },
+    "C08": {
+        "level_text": "A declarative op specification (Spec/Ops.v, written from asm.yml without the model's helpers) and Coq theorems that the code-shaped model refines it for all 40 data ops: Ok iff spec Some with exactly that stack/memory and untouched pc/halt/repeat/parent; spec None => typed error; failing op reported at its own index. Correspondence evaluates the spec directly on the implementation's single-op results.",
+        "properties": "Properties/C08",
+        "corr": ["Corr/RunVm"],
+        "engines": [{"engine": "vm", "quick": 1600, "thorough": 60000,
+                     "args": ["--families", "single,single,single,prog", "--evals", "vm_mismatches,c08_spec_failures"]}],
+        "rule": "every Stack/Pred/Alu/Memory/ParentMemory op on operands from the boundary pool and structurally valid operands, "
+                "stack shapes empty/short/at the 4096 limit, memory shapes empty/short/at the 10240 limit, parent memory present/absent; "
+                "plus short programs of data-op snippets; single-op cases are checked against the declarative op_spec directly",
+        "assumes": [],
+    },
+    "C09": {
+        "level_text": 'Coq theorems: exact clause tables for JumpIf/HaltIf/PanicIf/Halt, the repeat stack as a state machine (counter sequences up/down, trip count max(n,1), outer slots untouched), a whole-program loop theorem for straight-line bodies, exec stopping cases as equations and eval_spec. Correspondence over control-flow programs incl. all boundary distances/counts and Vm::eval_ops.',
+        "properties": "Properties/C09",
+        "corr": ["Corr/RunVm"],
+        "engines": [{"engine": "vm", "quick": 1500, "thorough": 40000,
+                     "args": ["--families", "control,control,control,prog", "--evals", "vm_mismatches,sem_failures", "--sweep"]}],
+        "rule": "repeat loops (counts <=0, 1, n, boundary values; both directions; nested), JumpIf with distances from the boundary pool and "
+                "all in-range distances, counted backward loops, Halt/HaltIf/PanicIf in the middle, start pcs inside and outside the program, "
+                "limit sweeps; Vm::eval_ops is run on every case",
+        "assumes": [],
+    },
+    "C10": {
+        "level_text": 'Coq theorems: compute_with equals a sequential left fold over indices 0..n-1 (child start state, memories appended in index order, max pc, gas sum against the remaining limit), all failure clauses, parent memory prefix preserved, resume equation of exec. Correspondence over breadths/child bodies/parents.',
+        "properties": "Properties/C10",
+        "corr": ["Corr/RunVm"],
+        "engines": [{"engine": "vm", "quick": 1000, "thorough": 20000,
+                     "args": ["--families", "compute", "--evals", "vm_mismatches,sem_failures", "--gas"]}],
+        "rule": "Compute with breadths <=0,1,2..5,17,64,200,1000,boundary values; children allocating index-dependent amounts, storing, "
+                "jumping on index parity, reading parent memory, halting, failing, nesting Compute, using the repeat counter; parents with "
+                "memory at the limit and inside a parent memory; varying cost/limit",
+        "assumes": ["rayon delivers results by index; thread schedules are sampled (see C02)"],
+    },
+    "C11": {
+        "level_text": 'Coq theorems: the exact request (view pre/post, contract own/extern as 32 bytes of the 4 words, key, count) and the memory layout equation (pairs then values back to back, length preserved, frame unchanged, EMemory when it does not fit, view error returned unchanged). Correspondence with recording scripted views.',
+        "properties": "Properties/C11",
+        "corr": ["Corr/RunVm"],
+        "engines": [{"engine": "vm", "quick": 1500, "thorough": 40000,
+                     "args": ["--families", "state", "--evals", "vm_mismatches,sem_failures"]}],
+        "rule": "all four key-range ops, keys of length 0..4 incl. inconsistent key_len, counts 0/-1/boundary/1..4, addresses -1/in range/at "
+                "the end/boundary, scripted views answering exactly/fewer/more/no values/failing with values of length 0..4; every view call "
+                "of the implementation is recorded and given to the model as its oracle, a request the implementation did not make is answered "
+                "with a sentinel",
+        "assumes": ["the StateRead implementation is a deterministic function of its arguments"],
+    },
+    "C12": {
+        "level_text": "Coq theorems for arbitrary hash/signature oracles: PredicateData/Len/Slots exact results and failures, This*Address as 4 big-endian words (32-byte/4-word bijection), PredicateExists iff some solution's documented pre-image hashes to the words, Sha256/VerifyEd25519/RecoverSecp256k1 marshal exactly the documented bytes and results. Correspondence fills the oracles by calling essential-hash, ed25519-dalek and secp256k1 on the same bytes.",
+        "properties": "Properties/C12",
+        "corr": ["Corr/RunVm"],
+        "engines": [{"engine": "vm", "quick": 1200, "thorough": 30000,
+                     "args": ["--families", "access,crypto", "--evals", "vm_mismatches,sem_failures"]}],
+        "rule": "1..4 solutions with 0..4 slots; PredicateData/Len/Slots with in-range, boundary and out-of-range operands, near-full stacks; "
+                "ThisAddress/ThisContractAddress; PredicateExists with the hash of some solution's pre-image (computed by the harness with the "
+                "hash crate) or a perturbed one; Sha256 over byte lengths that are not multiples of 8 (oracle = essential_hash::hash_bytes); "
+                "VerifyEd25519 with real keys, corrupted signatures/keys (oracle = ed25519-dalek); RecoverSecp256k1 with real signatures, "
+                "corrupted ones, recovery ids outside 0..3 (oracle = secp256k1 crate)",
+        "assumes": ["SHA-256, Ed25519 and secp256k1 are third-party primitives: the theorems hold for arbitrary oracles, the correspondence fills the oracles by calling the crates"],
     },
 }
